@@ -152,6 +152,44 @@ def pipeable_stream(t):
         "compose_and_apply": lambda p: t >> (p >> pdt.select(pdt.C.z)) >> pdt.export(pdt.Polars()),
     }
     recs = []
+    # containers handed to a verb stay as they are: the `on` list of a join (column names / predicates), the mapping of rename, lists of keys
+    import polars as pl
+
+    u1 = pdt.Table(pl.DataFrame({"a": [3, -1, 0], "w": [1, 2, 3]}), name="u1")
+    u2 = pdt.Table(pl.DataFrame({"a": [3, 5, 0], "w": [7, 8, 9]}), name="u2")
+    containers = {
+        "join_on_names": (lambda: ["a"], lambda c, other: pdt.join(other, c, how="inner")),
+        "join_on_mixed": (lambda: ["a", "b"], lambda c, other: pdt.join(other >> pdt.mutate(b=1), c, how="left")),
+        "rename_map": (lambda: {"a": "a2"}, lambda c, other: pdt.rename(c)),
+        "arrange_keys": (lambda: [pdt.C.a.descending(), pdt.C.b], lambda c, other: pdt.arrange(*c)),
+        "group_keys": (lambda: ["b"], lambda c, other: pdt.group_by(*c) >> pdt.summarize(n=pdt.count())),
+    }
+    for cname, (mkc, use) in containers.items():
+        def snap(c_):
+            items = c_.items() if isinstance(c_, dict) else enumerate(c_)
+            return [(k if isinstance(k, (str, int)) else id(k), x if isinstance(x, str) else (type(x).__name__, id(x))) for k, x in items]
+
+        c = mkc()
+        before = snap(c)
+        rec = dict(receiver="container:" + cname, builder="used_twice")
+        try:
+            srt = lambda fr: (fr[0], sorted(fr[1]))      # noqa: E731  (a summarize returns its groups in any order)
+            r1 = srt(frame(use(c, u1)))
+            r2 = srt(frame(use(c, u2)))
+            fresh2 = srt(frame(use(mkc(), u2)))
+            rec["built"] = True
+            if snap(c) != before:
+                rec["outcome"], rec["detail"] = "changed", [str(before)[:100], str(snap(c))[:100]]
+            elif r2 != fresh2:
+                rec["outcome"], rec["detail"] = "value_changed", [str(r2)[:160], str(fresh2)[:160]]
+            else:
+                rec["outcome"] = "unchanged"
+        except Exception as ex:  # noqa: BLE001
+            rec["built"] = False
+            rec["exc"] = type(ex).__name__
+            rec["outcome"] = "changed" if snap(c) != before else "rejected"
+            rec["detail"] = [str(before)[:100], str(snap(c))[:100], str(ex)[:120]]
+        recs.append(rec)
     for rname, mk in (("verb", mk_single), ("verb_chain", mk_chain)):
         for uname, use in uses.items():
             p = mk()
